@@ -548,6 +548,29 @@ func main() {
 					}
 				}
 			}
+			// combined styles: attribute x foreground x background x underline in one cell, every ordered pair
+			// (a transition may keep one component while all the others fall back to the default)
+			{
+				var comb []vaxis.Style
+				for _, at := range []vaxis.AttributeMask{0, vaxis.AttrBold, vaxis.AttrItalic | vaxis.AttrReverse} {
+					for _, fg := range []vaxis.Color{0, vaxis.IndexColor(1), vaxis.RGBColor(1, 2, 3)} {
+						for _, bg := range []vaxis.Color{0, vaxis.IndexColor(200)} {
+							for _, ul := range []vaxis.Style{{}, {UnderlineStyle: vaxis.UnderlineCurly, UnderlineColor: vaxis.IndexColor(3)}, {UnderlineStyle: vaxis.UnderlineSingle}} {
+								st := ul
+								st.Attribute, st.Foreground, st.Background = at, fg, bg
+								comb = append(comb, st)
+							}
+						}
+					}
+				}
+				for _, a := range comb {
+					for _, b := range comb {
+						if mine() {
+							checkSeq([]vaxis.Style{a, b}, true)
+						}
+					}
+				}
+			}
 			// a cell without a grapheme (the zero Cell, the second half of a wide character) at each position of
 			// a triple over a small style domain: it prints nothing, the cells around it come back unchanged and
 			// the string still ends reset
@@ -599,7 +622,7 @@ func main() {
 	n := r.Get("encodings") + r.Get("param_lists")
 	r.Finish(explore.Coverage{
 		States: -1, Transitions: n, Traces: n, Evaluations: n,
-		Rule:        "every ordered pair of styled cells over three style domains (all 128x128 attribute masks; 125x125 triples of colour classes default/0-7/8-15/16-255/RGB for fg, bg, underline colour; 12x12 underline style and colour combinations) plus mixed attribute/colour transitions (thorough: all triples over a 16-style domain), all triples over an 8-style domain with one cell that has no grapheme, encoded by EncodeCells, StyledString.Encode and the renderer (SGR sequences of a Refresh), and consumed by ParseStyledString, NewStyledString, the embedded terminal (through the real parser) and the reference terminal: the reference terminal must show the cells and end with a default pen, every consumer must return the cells' styles; plus every SGR parameter list of <= n elements over 44 elements (12 plain values, empty, colon forms of 4/38/48/58 with 2-7 fields and truncated forms) fed to the three library consumers for the no-panic clause. distinct = style sequences that passed",
+		Rule:        "every ordered pair of styled cells over three style domains (all 128x128 attribute masks; 125x125 triples of colour classes default/0-7/8-15/16-255/RGB for fg, bg, underline colour; 12x12 underline style and colour combinations) plus all 54x54 pairs of combined styles (attribute x foreground x background x underline), mixed attribute/colour transitions (thorough: all triples over a 16-style domain), all triples over an 8-style domain with one cell that has no grapheme, encoded by EncodeCells, StyledString.Encode and the renderer (SGR sequences of a Refresh), and consumed by ParseStyledString, NewStyledString, the embedded terminal (through the real parser) and the reference terminal: the reference terminal must show the cells and end with a default pen, every consumer must return the cells' styles; plus every SGR parameter list of <= n elements over 44 elements (12 plain values, empty, colon forms of 4/38/48/58 with 2-7 fields and truncated forms) fed to the three library consumers for the no-panic clause. distinct = style sequences that passed",
 		Exhaustive:  true,
 		Bounds:      map[string]any{"max_param_list": r.Pick(3, 4)},
 		Assumptions: []string{"hyperlinks are outside the round-trip clause (ParseStyledString and NewStyledString have no OSC 8 handling by design); they are inside the reset-at-end clause"},
